@@ -114,9 +114,26 @@ func (s *evalState) pop() []string {
 }
 
 func (s *evalState) add(names ...string) {
-	if last := len(s.resolved) - 1; last >= 0 {
-		s.resolved[last] = append(s.resolved[last], names...)
+	last := len(s.resolved) - 1
+	if last < 0 {
+		return
 	}
+	// every name once: a value used repeatedly (diamonds) must not multiply
+	// the dependencies of the values built from it
+	deps := s.resolved[last]
+	for _, name := range names {
+		known := false
+		for _, dep := range deps {
+			if dep == name {
+				known = true
+				break
+			}
+		}
+		if !known {
+			deps = append(deps, name)
+		}
+	}
+	s.resolved[last] = deps
 }
 
 // StructTag option sets the struct tag name to use for looking up
